@@ -28,6 +28,7 @@ type c08Case struct {
 	History string        `json:"history,omitempty"` // "", mkdir (state produced by Mkdir of the same forest with Exts)
 	NoTarget bool         `json:"noTarget,omitempty"` // the target directory itself does not exist
 	RootLink bool         `json:"rootLink,omitempty"` // every root directory is a symbolic link to a directory kept beside the roots
+	Refusal  string       `json:"refusal,omitempty"`  // longroot: a root name of 256 bytes; targetIsFile: the target path is a regular file
 	Exts    []string      `json:"exts,omitempty"`
 }
 
@@ -139,6 +140,17 @@ func c08Check(c c08Case) string {
 	if c.NoTarget {
 		cs.FS = &ops.FSSpec{TargetMissing: true}
 	}
+	switch c.Refusal {
+	case "targetIsFile":
+		cs.FS = &ops.FSSpec{TargetIsFile: true}
+	case "longroot":
+		long := strings.Repeat("L", 256)
+		if c.Entry == "md" {
+			cs.Doc = append([]byte("- "+long+"\n  - k\n"), cs.Doc...)
+		} else {
+			cs.Root = &long
+		}
+	}
 	if c.RootLink && c.History == "" && !c.NoTarget {
 		// <root> -> ~real/<root>: the node paths exist through the link; what is stored beside the roots is nobody's extra
 		var pre []ops.FSEntry
@@ -180,6 +192,13 @@ func c08Check(c c08Case) string {
 	}
 	if cr, rm, ch := ops.Diff(res.Before, res.After); len(cr)+len(rm)+len(ch) != 0 {
 		return fmt.Sprintf("%sverify changed the filesystem: created %v removed %v changed %v", head, cr, rm, ch)
+	}
+	if c.Refusal != "" {
+		// the filesystem cannot even hold these paths, so they do not exist: never nil
+		if res.Err.Nil {
+			return fmt.Sprintf("%snode paths cannot exist (%s) but verify returned nil", head, c.Refusal)
+		}
+		return ""
 	}
 	// differences computed from the snapshot
 	state := targetRel(res.Before)
@@ -254,6 +273,9 @@ func c08Check(c c08Case) string {
 	rel := func(p string) string {
 		if c.Target == "rel" {
 			return strings.TrimPrefix(filepath.ToSlash(p), prefix)
+		}
+		if c.Target == "short" {
+			return strings.TrimPrefix(filepath.ToSlash(p), "t/")
 		}
 		if i := strings.Index(p, "/"+ops.JailTarget+"/"); i >= 0 {
 			return p[i+len("/"+ops.JailTarget+"/"):]
@@ -355,6 +377,9 @@ func c08Record(col *collector, c c08Case) {
 	if c.RootLink {
 		cl = append(cl, "root-is-symlink-to-dir")
 	}
+	if c.Refusal != "" {
+		cl = append(cl, "refusal:"+c.Refusal)
+	}
 	if c.Target != "" {
 		cl = append(cl, "target:"+c.Target)
 	}
@@ -380,7 +405,7 @@ func c08Gen() *rapid.Generator[c08Case] {
 		if hasDupRoots(f) {
 			uniqRoots(f)
 		}
-		c := c08Case{Forest: f, Entry: entry, Strict: rapid.Bool().Draw(t, "strict"), Target: rapid.SampledFrom([]string{"", "rel", "slash"}).Draw(t, "target")}
+		c := c08Case{Forest: f, Entry: entry, Strict: rapid.Bool().Draw(t, "strict"), Target: rapid.SampledFrom([]string{"", "rel", "slash", "short"}).Draw(t, "target")}
 		c.Massive = rapid.IntRange(0, 4).Draw(t, "massive") == 0
 		if rapid.IntRange(0, 3).Draw(t, "hist") == 0 {
 			c.History = "mkdir"
@@ -389,9 +414,19 @@ func c08Gen() *rapid.Generator[c08Case] {
 		}
 		if rapid.IntRange(0, 9).Draw(t, "noTarget") == 0 {
 			c.NoTarget = true
+			if c.Target == "short" {
+				c.Target = ""
+			}
 			return c
 		}
 		c.RootLink = rapid.IntRange(0, 5).Draw(t, "rootLink") == 0
+		if rapid.IntRange(0, 11).Draw(t, "refusal") == 0 {
+			c.Refusal = rapid.SampledFrom([]string{"longroot", "targetIsFile"}).Draw(t, "refusalKind")
+			c.RootLink = false
+			if c.Target == "short" {
+				c.Target = ""
+			}
+		}
 		n := model.Merge(f).Count()
 		c.Drop = rapid.SliceOfN(rapid.IntRange(0, n-1), 0, 3).Draw(t, "drop")
 		if rapid.IntRange(0, 3).Draw(t, "flip") == 0 {
